@@ -150,25 +150,30 @@ def build(tier, seed):
 
     # ---------------- COUNTIFS: two criteria, conjunctive position by position
     MS = mk({'A1': 1, 'A2': 2, 'B1': 1, 'B2': 2, 'C1': 0, 'C2': 0, 'Z1': '=COUNTIFS(A1:A2,">"&C1,B1:B2,"<="&C2)', 'Z2': '=COUNTIFS(A1:A2,C1,B1:B2,"<>"&C2)',
-             'Z3': '=COUNTIFS(A1:A2,">="&C1)'})
+             'Z3': '=COUNTIFS(A1:A2,">="&C1)', 'D1': 1, 'D2': 2, 'C3': 0, 'E1': 1, 'E2': 1,
+             'Z4': '=COUNTIFS(A1:A2,">"&C1,B1:B2,"<="&C2,D1:D2,"<>"&C3)', 'Z5': '=COUNTIFS(A1:A2,">"&C1,B1:B2,"<="&C2,D1:D2,"<>"&C3,E1:E2,C1)'})
 
-    def mk_ifs(z):
-        def h_ifs(a1: int, a2: int, b1: int, b2: int, k1: int, k2: int) -> bool:
-            k1, k2 = concretize(k1, -1, 1), concretize(k2, -1, 1)
-            for nm, v in (('A1', a1), ('A2', a2), ('B1', b1), ('B2', b2), ('C1', k1), ('C2', k2)):
+    def mk_ifs3(ks, four):
+        k1, k2, k3 = ks
+
+        def h3(a1: int, a2: int, b1: int, b2: int, d1: int, d2: int) -> bool:
+            for nm, v in (('A1', a1), ('A2', a2), ('B1', b1), ('B2', b2), ('D1', d1), ('D2', d2), ('E1', 1), ('E2', 1), ('C1', k1), ('C2', k2), ('C3', k3)):
                 setv(MS, 'Sheet1!' + nm, v)
-            ev = Evaluator(MS)
-            rows = ((a1, b1), (a2, b2))
-            if z == 1:
-                return nval(ev.evaluate('Sheet1!Z1')) == sum(1 for a, b in rows if a > k1 and b <= k2)
-            if z == 2:
-                return nval(ev.evaluate('Sheet1!Z2')) == sum(1 for a, b in rows if a == k1 and b != k2)
-            return nval(ev.evaluate('Sheet1!Z3')) == sum(1 for a, b in rows if a >= k1)
-        return h_ifs
-    for z, desc in ((1, '(">"&k1, "<="&k2)'), (2, '(k1, "<>"&k2)'), (3, 'single criterion ">="&k1')):
-        add(f'COUNTIFS[{desc}]', mk_ifs(z), lambda a1, a2, b1, b2, k1, k2: -1 <= k1 <= 1 and -1 <= k2 <= 1, [(1, 2, 2, 1, 1, 1), (0, 0, 0, 0, -1, 0)],
-            f'two ranges of 2 int cells (unbounded), criteria {desc} combined position by position; k1, k2 in -1..1 (forked)', 60,
-            lambda *a: f'A={a[:2]!r} B={a[2:4]!r} k1={a[4]} k2={a[5]}')
+            rows = ((a1, b1, d1), (a2, b2, d2))
+            return nval(Evaluator(MS).evaluate('Sheet1!Z4')) == sum(1 for a, b, d in rows if a > k1 and b <= k2 and d != k3)
+
+        def h4(a1: int, b1: int, d1: int, e1: int, e2: int) -> bool:
+            for nm, v in (('A1', a1), ('A2', k1 + 1), ('B1', b1), ('B2', k2), ('D1', d1), ('D2', k3 + 1), ('E1', e1), ('E2', e2), ('C1', k1), ('C2', k2), ('C3', k3)):
+                setv(MS, 'Sheet1!' + nm, v)
+            rows = ((a1, b1, d1, e1), (k1 + 1, k2, k3 + 1, e2))
+            return nval(Evaluator(MS).evaluate('Sheet1!Z5')) == sum(1 for a, b, d, e in rows if a > k1 and b <= k2 and d != k3 and e == k1)
+        return h4 if four else h3
+    for ks in ((0, 1, 0), (1, -1, 1)):
+        add(f'COUNTIFS[three pairs, k={ks}]', mk_ifs3(ks, False), None, [(1, 2, 2, 1, 5, 0), (0, 0, 0, 0, 0, 0), (5, 5, -3, -3, 7, 7)],
+            f'three ranges of 2 int cells (unbounded) with the criteria ">"&{ks[0]}, "<="&{ks[1]}, "<>"&{ks[2]} combined position by position', 60, lambda *a: f'A={a[:2]!r} B={a[2:4]!r} D={a[4:6]!r}')
+        add(f'COUNTIFS[four pairs, k={ks}]', mk_ifs3(ks, True), None, [(1, 2, 5, 0, 1), (0, 0, 0, 0, 0), (5, -3, 7, ks[0], ks[0])],
+            f'four ranges of 2 cells (first row and the last column unbounded ints, second row satisfying the first three criteria) with the criteria ">"&{ks[0]}, "<="&{ks[1]}, "<>"&{ks[2]}, {ks[0]}', 60,
+            lambda *a: f'row1={a[:4]!r} E2={a[4]}')
 
     # ---------------- MATCH exact / approximate
     MM = mk({'A1': 1, 'A2': 2, 'A3': 3, 'A4': 4, 'B1': 0, 'Z1': '=MATCH(B1,A1:A4,0)', 'Z2': '=MATCH(B1,A1:A4,1)', 'Z3': '=MATCH(B1,A1:A4)', 'Z4': '=MATCH(B1,A1:A3,0)'})
@@ -251,6 +256,32 @@ def build(tier, seed):
         '3x3 table: keys in 0..3 (duplicates included), payload cells all ints; lookup key 0..3 present at any position or absent; column index 0..4 (forked): value in the '
         'requested column of the FIRST matching row, #N/A when absent, an error value for a column outside the table', 120,
         lambda *a: f'keys={a[:3]!r} B={a[3:6]!r} C={a[6:9]!r} key={a[9]} col={a[10]}')
+
+    KEYT = ['apple', 'Apple', 'APPLE', 'pear', 'Pear']
+
+    def h_vlt(i1: int, i2: int, i3: int, b1: int, b2: int, b3: int, ik: int) -> bool:
+        ks = [KEYT[concretize(i, 0, 4)] for i in (i1, i2, i3)]
+        key = KEYT[concretize(ik, 0, 4)]
+        rows = tuple(zip(ks, (b1, b2, b3)))
+        for i, (k, b) in enumerate(rows):
+            setv(MV, f'Sheet1!A{i + 1}', k)
+            setv(MV, f'Sheet1!B{i + 1}', b)
+        setv(MV, 'Sheet1!D1', key)
+        ev = Evaluator(MV)
+        r2, r4 = ev.evaluate('Sheet1!Z2'), ev.evaluate('Sheet1!Z4')
+        hit = None
+        for row in rows:
+            if row[0].upper() == key.upper():
+                hit = row
+                break
+        if hit is None:
+            return is_err(r2, XE.NaExcelError) and is_err(r4, XE.NaExcelError)
+        return nval(r2) == hit[1] and val(r4) == hit[0]
+    add('VLOOKUP[text keys, case]', h_vlt, lambda i1, i2, i3, b1, b2, b3, ik: all(0 <= i <= 4 for i in (i1, i2, i3, ik)),
+        [(0, 1, 3, 10, 20, 30, 1), (1, 3, 0, 10, 20, 30, 0), (3, 3, 4, 1, 2, 3, 2)],
+        f'3-row table with text keys over {KEYT} at every position (forked, duplicates in different spellings included), payload all ints; lookup key over the same texts: '
+        'the FIRST row whose key equals it case-insensitively, #N/A when absent', 150,
+        lambda *a: f'keys={[KEYT[i % 5] for i in a[:3]]!r} B={a[3:6]!r} key={KEYT[a[6] % 5]!r}')
 
     # ---------------- CHOOSE
     MCH = mk({'A1': 1, 'B1': 10, 'B2': 20, 'B3': 30, 'Z1': '=CHOOSE(A1,B1,B2,B3)', 'Z2': '=CHOOSE(A1,B1)'})
